@@ -124,6 +124,11 @@ func c07Keys(cs *fs.Case, o *fs.Outcome) map[string]string {
 			out[fmt.Sprintf("C07:error-without-faulty:%04d", first.Code)] = fmt.Sprintf("%d error-level diagnostics were delivered but module.Ast.Faulty is false (a compilation of this module is not stopped); first: %s", nerr, first.String())
 		}
 	}
+	// (i') the same for every other module of the import closure: a module marked faulty stops the
+	// compilation (compiler.Compile refuses it), so some error diagnostic must have been delivered
+	if r.Err == "" && nerr == 0 && len(r.FaultyMods) > 0 {
+		out["C07:imported-module-faulty-without-error:"+filepath.Base(r.FaultyMods[0])] = fmt.Sprintf("the imported module(s) %v are marked faulty but no error-level diagnostic was delivered", r.FaultyMods)
+	}
 	// (ii)
 	badRange := map[string]bool{}
 	for _, d := range r.Diags {
